@@ -6,6 +6,7 @@ CONSTANTS
   SessionEndRule = "ignore"
   CookieAgeOverridesExp = FALSE
   AudienceIsUrlRoot = FALSE
+  PreflightBypass = FALSE
 INIT Init
 NEXT Next
 INVARIANTS
